@@ -37,13 +37,29 @@ transition, all interleavings, all `n ≥ 1`.
     the exit goal becomes current and later all `n` workers are `surrendered`.  Together with `exit_once` /
     `surrender_once`: every worker exits exactly once and surrenders exactly once.
   - `exit_hypotheses_satisfiable` — a concrete fair run satisfying every hypothesis (kernel-evaluated).
-  Not proved (stated precisely): the case in which a Gc goal is current or a Gc request is pending when the
-  exit request arrives.  `Gc` has priority; `gc_completes_under_fairness` (C14) shows that GC completes, and
-  the completing `on_last_parked` either starts the exit goal itself or (concurrent work scheduled) wakes the
-  workers with no goal current, after which `workers_exit_under_fairness` applies to the suffix of the run —
-  the missing link is the lemma "the state after the completing `park` satisfies the start hypotheses again"
-  (`reqGc = false` there is immediate from the assertion in `on_last_parked`; preservation of the exit request
-  through `respond` is not written down).
+  - `exit_request_survives_gc` (`Lemmas/SchedExitGc.lean`) — the exit request arrives WHILE a GC is in progress
+    (`prepare_to_fork` / `mmtk_shutdown` called during a collection; the `notify_one` of `make_request` is consumed
+    by a worker that sees `current = Gc`, finds nothing and parks again).  The `park` step that completes the GC
+    (`gcDone` changes) with `reqShutdown ∨ reqFork` set is the park of the last parker with the Gc goal current and
+    no Gc request pending; it wakes every other worker, and afterwards either an exit goal is current and the parker
+    has left its loop (`respond_to_requests` after `on_current_goal_completed`), or — concurrent work scheduled — no
+    goal is current, the request flag is still set and the parker polls again.  (`onLastParked_completing`,
+    `onLastParked_keeps_exit_reqs`: nothing `on_last_parked` does before `respond` touches the exit requests.)
+  - `workers_exit_under_fairness_during_gc` — the combined statement: `GcPending` (a Gc request is pending or a Gc
+    goal is current) and an exit request pending at the start, `prepare_surrender_buffer` called, the hypotheses of
+    C14 (`FairRun`, `FiniteSpawn`, `FiniteEnv`, `NoAssert`, `mutAddOpen = false`), and no Gc request pending once
+    that GC has completed.  Then the GC completes first (step `jg`, a `park` with the Gc goal current; up to it
+    `gcDone` is unchanged and no exit goal is current), strictly later an exit goal is current, and finally all
+    `n` workers are `surrendered`.  Proof: `gc_request_completes` (the core of C14's
+    `gc_completes_under_fairness`) + `first_change` give the completing step; the invariant
+    `gcPending_exitReq_step` carries the request and the pool up to it; `exit_request_survives_gc` splits into
+    `workers_exit_after_goal` (goal started) and `workers_exit_under_fairness` (concurrent work: request still set).
+  - `exit_during_gc_hypotheses_satisfiable` — a concrete run (request made while `ScheduleCollection` runs)
+    satisfying every hypothesis (kernel-evaluated), the theorem applied to it, and the 2-worker scenario of the
+    seeded regression (`forkDuringGcRun`: the woken worker goes back to sleep, the completing park serves the
+    request) evaluated by `decide`.
+  Remaining hypothesis (explicit): no *further* Gc request after the GC in progress (`Gc` has priority over the exit
+  goals, so an unbounded stream of GC requests starves an exit request — by design of `poll_next_goal`).
 -/
 namespace Mmtk.Sched
 
